@@ -213,10 +213,11 @@ def r5_scan(prog, rep: Report, g: Func, f: Func):
     call = lp.iter
     ok_call = isinstance(call, ast.Call) and src(call.func) == f.name and len(call.args) >= 2 \
         and src(call.args[0]) == f"range(len({elements}))" and isinstance(call.args[1], ast.Lambda) \
-        and "sum(" in src(call.args[1].body) and f"{scores}[" in src(call.args[1].body) \
+        and isinstance(call.args[1].body, ast.Call) and isinstance(call.args[1].body.func, ast.Name) and call.args[1].body.func.id == "sum" \
+        and f"{scores}[" in src(call.args[1].body) \
         and any(k.arg == "yield_key" and const_value(k.value) is True for k in call.keywords)
-    rep.check("C17.R5", g, "feeds", ok_call, "sorted_combinations(range(len(elements)), sum of scores, yield_key=True)",
-              f"the scan is not fed by sorted_combinations over all element indices keyed by the score sum: `{src(call)}`",
+    rep.check("C17.R5", g, "feeds", ok_call, "sorted_combinations(range(len(elements)), builtin sum of scores, yield_key=True)",
+              f"the scan is not fed by sorted_combinations over all element indices keyed by the exact (builtin sum) score sum: `{src(call)[:160]}`",
               scenario="the stream is not ordered by score sum, so the first score in the interval is not the minimum")
     res = None
     for n in g.node.body:
